@@ -1,6 +1,6 @@
 """C09 — inclination functions and degree coefficients equal Kaula's definitions."""
 from __future__ import annotations
-import ast
+import ast, math
 from fractions import Fraction as F
 from math import factorial
 from ..core import expr as X, trigpoly as T
@@ -17,6 +17,93 @@ LEVEL_NOTE = ('Trusted: ast front-end, interpreter, our transcription of Kaula (
               'Source literals are rounded decimals (2/3 typed to 25 digits), so coefficients are compared to 1e-11 of the largest coefficient.')
 EXPLANATION = ('R09.1 calc_inclination entries == F_lmp(I)^2 identically in I; omitted (m,p) must be identically zero. R09.2 calc_inclination_off entries == '
                'F_lmp(0)^2, omitted ones zero at I=0. R09.3 universal coefficients == (2-delta_0m)(l-m)!/(l+m)!. R09.4 registries map l to the function of that l.')
+
+
+def domain_regions(entry, I):
+    """The property's domain is I in [0, pi] (closed).  An entry written with |I| or with a range reduction (I % P = I - P floor(I / P)) is a different trigonometric
+    polynomial on each piece of the domain between the jumps of its floor terms; the pieces are enumerated: [(label, entry on that piece, None)] for the open pieces
+    (identity in I demanded) and [(label, entry, I0)] for the jump points and the end points of the domain (value at I0 demanded).  Entries without such terms: one piece."""
+    floors = {}; has_abs = [False]
+
+    def scan(n, seen=set()):
+        stack = [n]; seen = set()
+        while stack:
+            x = stack.pop()
+            if x.uid in seen: continue
+            seen.add(x.uid)
+            if x.op == 'fn' and x.val == 'floor': floors[x.uid] = x
+            if x.op == 'fn' and x.val == 'abs': has_abs[0] = True
+            stack.extend(x.args)
+    scan(entry)
+    if not floors and not has_abs[0]:
+        return [('', entry, None)]
+
+    def no_abs(n):
+        if n.op == 'fn' and n.val == 'abs' and n.args[0] is I:
+            return I            # I >= 0 on the domain
+        return None
+    entry = X.rewrite(entry, no_abs)
+    floors.clear(); scan(entry)
+    if not floors:
+        return [('', entry, None)]
+
+    def q_at(f_, x):
+        v = X.float_eval(f_.args[0], {'I': x, 'pi': math.pi})
+        if abs(v.imag) > 1e-12: raise AnalysisError('complex argument of floor')
+        return v.real
+    cuts = set()
+    for f_ in floors.values():
+        if any(t.op == 'fn' and t.val == 'floor' for t in X_subnodes(f_.args[0])):
+            raise AnalysisError('nested range reductions')
+        q0, qm, q1 = q_at(f_, 0.0), q_at(f_, math.pi / 2), q_at(f_, math.pi)
+        if abs(qm - (q0 + q1) / 2) > 1e-9 * max(1.0, abs(q0), abs(q1)):
+            raise AnalysisError('range reduction whose argument is not affine in I')
+        if abs(q1 - q0) < 1e-15:
+            continue
+        lo, hi = sorted((q0, q1))
+        for j in range(math.ceil(lo - 1e-9), math.floor(hi + 1e-9) + 1):
+            x = math.pi * (j - q0) / (q1 - q0)
+            if -1e-9 <= x <= math.pi + 1e-9:
+                cuts.add(min(max(x, 0.0), math.pi))
+    pts = sorted(cuts | {0.0, math.pi})
+    # merge cuts closer than rounding
+    merged = []
+    for x in pts:
+        if not merged or x - merged[-1] > 1e-9: merged.append(x)
+    pts = merged
+
+    def fix(x, exact):
+        def h(n):
+            if n.op == 'fn' and n.val == 'floor' and n.uid in fl_new:
+                q = q_at(n, x)
+                if exact and abs(q - round(q)) < 1e-9: return X.const(int(round(q)))
+                return X.const(math.floor(q))
+            return None
+        fl_new = {}
+        stack = [entry]; seen = set()
+        while stack:
+            y = stack.pop()
+            if y.uid in seen: continue
+            seen.add(y.uid)
+            if y.op == 'fn' and y.val == 'floor': fl_new[y.uid] = y
+            stack.extend(y.args)
+        return X.rewrite(entry, h)
+    out = []
+    for a_, b_ in zip(pts, pts[1:]):
+        out.append((f' [on {a_ / math.pi:.4g} pi < I < {b_ / math.pi:.4g} pi]', fix((a_ + b_) / 2, False), None))
+    for x in pts:
+        out.append((f' [a jump point of the range reduction]' if 0.0 < x < math.pi else ' [end point of the domain]', fix(x, True), x))
+    return out
+
+
+def X_subnodes(n):
+    stack = [n]; seen = set()
+    while stack:
+        x = stack.pop()
+        if x.uid in seen: continue
+        seen.add(x.uid)
+        yield x
+        stack.extend(x.args)
 
 
 def run(chk):
@@ -60,15 +147,24 @@ def run(chk):
                         if (m, p) not in tab:
                             chk.ob('R09.1', inst + ' (omitted)', not ref, 'omitted but F_lmp^2 is not identically zero', where, key=f'R09.1|{inst}', method='canonical trig form')
                             continue
+                        ok = True; detail = ''
                         try:
-                            got = T.to_trig(tab[(m, p)])
+                            for rlab, entry, point in domain_regions(tab[(m, p)], I):
+                                if point is not None:
+                                    # a single obliquity of the closed domain [0, pi] at which a range reduction changes branch: the value there
+                                    gv = X.float_eval(entry, {'I': point, 'pi': math.pi}); rv = ev(ref, point)
+                                    if abs(gv - rv) > 1e-9 * max(1.0, abs(rv), T.t_maxabs(ref)):
+                                        ok = False; detail = f'at I = {point!r}{rlab}: table = {gv.real:.8g}, Kaula = {rv.real:.8g}'
+                                        break
+                                    continue
+                                got = T.to_trig(entry)
+                                ok, worst, scale = T.t_close(got, ref)
+                                if not ok:
+                                    detail = (f'harmonic {fmt_key(worst[0])}: coefficient differs by {worst[1]:.6g} (scale {scale:.6g}); '
+                                              f'at I=0.7 table={ev(got, 0.7):.8g} Kaula={ev(ref, 0.7):.8g}{rlab}')
+                                    break
                         except AnalysisError as ex:
                             chk.ob('R09.1', inst, False, f'not a trigonometric polynomial of I: {ex}', where); continue
-                        ok, worst, scale = T.t_close(got, ref)
-                        detail = ''
-                        if not ok:
-                            detail = (f'harmonic {fmt_key(worst[0])}: coefficient differs by {worst[1]:.6g} (scale {scale:.6g}); '
-                                      f'at I=0.7 table={ev(got, 0.7):.8g} Kaula={ev(ref, 0.7):.8g}')
                         chk.ob('R09.1', inst, ok, detail, where, key=f'R09.1|{inst}', method='canonical trig form')
     chk.floor('R09.1', 199); chk.floor('R09.2', 199)
 
